@@ -679,16 +679,16 @@ fn main() {
 
     // --- random -----------------------------------------------------------------------
     let (kn, kk) = (known.clone(), known_keys.clone());
-    ck.run(Section::pbt("random-memory", tier.pick(30_000, 3_000_000), || random_case(Sys::Memory), move |c: &Case| check_case(c, &kn, &kk)).shards(16));
+    ck.run(Section::pbt("random-memory", tier.pick(120_000, 6_000_000), || random_case(Sys::Memory), move |c: &Case| check_case(c, &kn, &kk)).shards(16));
     drain_infra(&mut ck);
     let (kn, kk) = (known.clone(), known_keys.clone());
-    ck.run(Section::pbt("random-disk", tier.pick(8_000, 800_000), || random_case(Sys::Disk), move |c: &Case| check_case(c, &kn, &kk)).shards(16));
+    ck.run(Section::pbt("random-disk", tier.pick(30_000, 1_500_000), || random_case(Sys::Disk), move |c: &Case| check_case(c, &kn, &kk)).shards(16));
     drain_infra(&mut ck);
     let (kn, kk) = (known.clone(), known_keys.clone());
-    ck.run(Section::pbt("random-container", tier.pick(3_000, 300_000), || random_case(Sys::Container), move |c: &Case| check_case(c, &kn, &kk)).shards(16));
+    ck.run(Section::pbt("random-container", tier.pick(12_000, 600_000), || random_case(Sys::Container), move |c: &Case| check_case(c, &kn, &kk)).shards(16));
     drain_infra(&mut ck);
     let (kn, kk) = (known.clone(), known_keys.clone());
-    ck.run(Section::pbt("evict-memory", tier.pick(15_000, 1_500_000), evict_case, move |c: &Case| check_case(c, &kn, &kk)).shards(16));
+    ck.run(Section::pbt("evict-memory", tier.pick(60_000, 3_000_000), evict_case, move |c: &Case| check_case(c, &kn, &kk)).shards(16));
     drain_infra(&mut ck);
 
     ck.finish();
